@@ -149,6 +149,8 @@ def apply(f, args):
         if f[1] == "Option::Some":
             return some(args[0])
         return ("ctor", f[1], tuple((str(i), a) for i, a in enumerate(args)))
+    if isinstance(f, tuple) and f[:1] == ("fn",) and len(args) == 1 and isinstance(f[1], str) and f[1].split("::")[-1] in ("as_path", "as_ref", "as_str", "as_slice", "as_deref", "clone", "to_owned", "deref", "borrow"):
+        return args[0]      # a borrowed / re-typed view of the same value (`Option<&PathBuf>` -> `Option<&Path>`)
     raise Unknown("apply %r" % (f,))
 
 
